@@ -396,12 +396,17 @@ def c12(ctx, rep):
     rep.rule('TRACE', 'arrival::Curve::from_trace: whole window scanned newest-first before the push; eviction iff len > prefix')
     n = rules_models.check_ref(rep, crate, 'C12')
     t = rules_models.check_trace(rep, crate, 'arrival::curve::Curve::from_trace', window_push_first=False)
+    rep.rule('CONV', 'Curve::from(Periodic).number_arrivals equals Periodic::number_arrivals for every interval length and period: proved by linear '
+                     'entailment from the code of Curve::number_arrivals specialised to the one-element delta-min vector the conversion builds')
+    k = rules_sem.check_conversion_laws(rep, crate)
     rep.floor('reference summaries compared', n, 20)
     rep.floor('trace extraction', t, 1)
+    rep.floor('conversion laws decided', k, 1)
     return ('Static analysis of the curve-derivation code (from_trace, from_arrival_bound(_until), prefix conversions, '
             'delta-min iterator): one-iteration loop summaries and value terms are compared with reviewed references '
             '(cut-off predicates, the (n, delta-1) dual, prefix hand-over horizon+1 / njobs+1); the sliding-window shape is '
-            'decided separately. Does NOT decide domination beyond the prefix (super-additivity arithmetic).')
+            'decided separately. For the periodic conversion the clause "coincides with its source" is PROVED for every interval '
+            'length (CONV). Does NOT decide domination beyond the prefix for the other sources (super-additivity arithmetic).')
 
 
 def c13(ctx, rep):
